@@ -405,6 +405,38 @@ func init() {
 				}
 			}
 		}
+		// loops nested up to twelve deep, each emitting before and after the inner loop and breaking at its
+		// second element: the output of every level is the concatenation of its bodies, however deep it stands
+		for depth := 1; depth <= 12; depth++ {
+			var src strings.Builder
+			for d := 1; d <= depth; d++ {
+				fmt.Fprintf(&src, "<%%= for (v%d) in [1, 2, 3] { %%>b%d<%%= v%d %%>", d, d, d)
+			}
+			for d := depth; d >= 1; d-- {
+				fmt.Fprintf(&src, "<%% if (v%d == 2) { break } %%>a%d<%% } %%>", d, d)
+			}
+			var ref func(d int) string
+			ref = func(d int) string {
+				if d > depth {
+					return ""
+				}
+				// element 1: before, inner, after; element 2: before, inner, break
+				in := ref(d + 1)
+				return fmt.Sprintf("b%d1%sa%d", d, in, d) + fmt.Sprintf("b%d2%s", d, in)
+			}
+			c := RCase{Tmpl: src.String()}
+			var o RObs
+			if depth <= 6 {
+				o = e.addRenderCase("deep-loops", c)
+			} else {
+				o = runRender(c)
+				e.rep.Evaluations++
+			}
+			e.Distinct(c.Tmpl)
+			if want := ref(1); o.Class != "OK" || o.Out != want {
+				e.Violate("c08-unroll", fmt.Sprintf("%d nested loops: rendered %d bytes (%s %s), element-by-element reference %d bytes; first difference at byte %d", depth, len(o.Out), o.Class, firstLine(o.Msg), len(want), firstDiff(o.Out, want)), map[string]interface{}{"case": c, "observed_len": len(o.Out)})
+			}
+		}
 		// an Iterator written in Go: walked until Next returns nil, and only then - elements that are
 		// falsy or typed nils (a nil pointer, a nil map, a nil slice held in the interface) are elements;
 		// a nil pointer that is an Iterator is a nil iterable and renders nothing
@@ -461,4 +493,16 @@ func matchPermutation(s string, parts []string) bool {
 		}
 	}
 	return false
+}
+
+func firstDiff(a, b string) int {
+	for i := 0; i < len(a) && i < len(b); i++ {
+		if a[i] != b[i] {
+			return i
+		}
+	}
+	if len(a) < len(b) {
+		return len(a)
+	}
+	return len(b)
 }
